@@ -43,9 +43,11 @@ Record seg := mkseg {
   ssingle : bool;     (* singleConnectedSegment *)
   szigzag : bool;     (* sBend || zBend *)
   smin : Q; smax : Q; (* minSpaceLimit, maxSpaceLimit *)
-  slo : Q; shi : Q    (* extent in the other dimension: lowPoint()[altDim], highPoint()[altDim] *)
+  slo : Q; shi : Q;   (* extent in the other dimension: lowPoint()[altDim], highPoint()[altDim] *)
+  ssbend : bool; szbend : bool;   (* sBend, zBend (hook H1b; szigzag = ssbend || szbend) *)
+  scpa : list Q       (* checkpoints[k][altDim] of the segment's own checkpoints (hook H1b; scp = non-empty) *)
 }.
-Definition dseg : seg := mkseg 0 0 true false false false false false 0 0 0 0.
+Definition dseg : seg := mkseg 0 0 true false false false false false 0 0 0 0 false false [].
 
 Record rel := mkrel { r_ov : bool; r_sa : bool; r_ca : bool; r_sh : bool }.
 Definition drel : rel := mkrel false false false false.
